@@ -51,7 +51,10 @@ def gen_case(rng, quick=True, impl=None):
                 model=rng.choice(["linear", "linear", "quad", "tanh"]),
                 pos=[rs(dyadic(rng, -1, 1, 2)) for _ in range(n)],
                 pe=rng.choice(["none", "none", "a", "b"]), n_samples=rng.randint(1, 2),
-                seed=rng.randint(0, 2 ** 31 - 1))
+                seed=rng.randint(0, 2 ** 31 - 1),
+                # documented options that must not change the distribution of the samples
+                jax_cg=rng.choice(["cg", "static_cg"]), jit_metric=rng.random() < 0.5, ovi_jit=rng.random() < 0.3,
+                cl_napprox=rng.choice([0, 0, 2]))
 
 
 def _arrs(c):
@@ -139,13 +142,15 @@ def real_jax(c):
                 e = np.zeros(m + nl)
                 e[k] = 1.0
                 evi.random_like = _FakeRandomLike([e[:m], e[m:]])
-                r, _ = evi.draw_linear_residual(lh, p, jax.random.PRNGKey(0), point_estimates=pe, cg_kwargs=CG_KW)
+                r, _ = evi.draw_linear_residual(lh, p, jax.random.PRNGKey(0), point_estimates=pe, cg_kwargs=CG_KW,
+                                                cg=(jft.static_cg if c.get("jax_cg") == "static_cg" else jft.cg),
+                                                jit_metric=bool(c.get("jit_metric", False)))
                 cols.append(_flat(r, c))
         finally:
             evi.random_like = orig
         A = np.array(cols).T
         # genuine draws (unpatched RNG) through the driver class: mirroring + point estimates + geoVI
-        ovi = jft.OptimizeVI(lh, n_total_iterations=1, jit=False, linear_minimizer_jit=False)
+        ovi = jft.OptimizeVI(lh, n_total_iterations=1, jit=bool(c.get("ovi_jit", False)), linear_minimizer_jit=False)
         keys = jax.random.split(jax.random.PRNGKey(c["seed"]), c["n_samples"])
         smp, _ = ovi.draw_linear_samples(p, keys, point_estimates=pe, cg_kwargs=CG_KW)
         res = np.array([_flat(jax.tree_util.tree_map(lambda a: a[i], smp._samples), c) for i in range(len(smp))])
@@ -235,13 +240,19 @@ def real_cl(c):
                 state = dict(o=0)
                 vec = np.concatenate([e[m:], e[:m]])
 
+                base_depth = len(nrandom._sseq)
+
                 def fake(dtype, shape, mean=0.0, std=1.0, _s=state, _v=vec):
+                    if len(nrandom._sseq) <= base_depth:
+                        # not inside a per-sample random.Context: draws of the preconditioner probing (napprox > 0)
+                        return orig(dtype, shape, mean, std)
                     k_ = int(np.prod(shape)) if np.ndim(shape) or shape else 1
                     out = _v[_s["o"]:_s["o"] + k_].reshape(shape)
                     _s["o"] += k_
                     return (mean + std * out).astype(dtype, copy=False)
                 nrandom.Random.normal = staticmethod(fake)
-                kl = ift.SampledKLEnergy(p, H, 1, None, mirror_samples=False, point_estimates=pe)
+                kl = ift.SampledKLEnergy(p, H, 1, None, mirror_samples=False, point_estimates=pe,
+                                         napprox=c.get("cl_napprox", 0))
                 assert state["o"] == m + nl, f"consumed {state['o']} of {m + nl} excitations"
                 s = list(kl.samples.iterator())[0]
                 cols.append(_flat_cl(s, c) - _flat_cl(p, c))
@@ -250,7 +261,8 @@ def real_cl(c):
         A = np.array(cols).T
         nrandom.push_sseq_from_seed(c["seed"] % 2 ** 31)
         try:
-            kl = ift.SampledKLEnergy(p, H, c["n_samples"], None, mirror_samples=True, point_estimates=pe)
+            kl = ift.SampledKLEnergy(p, H, c["n_samples"], None, mirror_samples=True, point_estimates=pe,
+                                     napprox=c.get("cl_napprox", 0))
             full = np.array([_flat_cl(s, c) for s in kl.samples.iterator()])
             out = dict(A=A, samples=full, residuals=full - _flat_cl(p, c))
             if c["model"] == "linear":
@@ -394,7 +406,7 @@ def _oracle_stat(case):
 # ------------------------------------------------------------------------------------------------------------
 def run(ctx):
     rng = ctx.rng
-    cases = [gen_case(rng, ctx.quick) for _ in range(ctx.n(6, 30))]
+    cases = [gen_case(rng, ctx.quick) for _ in range(ctx.n(3, 30))]
     for impl in ("jax", "cl"):
         for pe in ("a", "none"):
             c = gen_case(rng, ctx.quick, impl=impl)
@@ -416,6 +428,8 @@ def run(ctx):
         ctx.case(c, nontriv)
         for k in ("impl", "model", "pe"):
             ctx.stat(f"{k}={c[k]}")
+        ctx.stat(f"options:{c['jax_cg']},jit_metric={c['jit_metric']},ovi_jit={c['ovi_jit']}" if c["impl"] == "jax"
+                 else f"options:napprox={c['cl_napprox']}")
         ctx.stat(f"n={c['na'] + c['nb']},m={c['m']}")
         res = oracle(c)
         if res is not None:
